@@ -33,6 +33,8 @@ EXPECTED = {
     "ReferenceProxy.__getattr__": "976627a18d9d",
     "find_object_with_path": "3eaba0d2041c",
     "find": "50a6ae6dba91",
+    "RREL.__init__": "b961eeddc252",
+    "RREL.__call__": "047c7f57e0d8",
 }
 
 
@@ -184,6 +186,19 @@ def translate():
     pth = Flat(ast.unparse(find_func(tree, "__init__", "RRELPath")))
     need("if self.path_elements[0] == '^':\n        self.path_elements[0] = RRELZeroOrMore(RRELBrackets(RRELSequence([RRELPath([RRELDots(2)])])))" in pth,
          "'^' desugaring changed")
+
+    # the scope provider: the delimiter is deduced for each reference from its match rule and is
+    # never stored on the provider (one provider instance may serve references with different rules)
+    call = find_func(tree, "__call__", "RREL")
+    csrc = Flat(ast.unparse(call))
+    stores = [ast.unparse(t) for n in ast.walk(call) if isinstance(n, (ast.Assign, ast.AugAssign, ast.AnnAssign))
+              for t in (n.targets if isinstance(n, ast.Assign) else [n.target]) if ast.unparse(t).startswith("self.")]
+    need(not stores, "RREL.__call__ stores state on the provider: %r" % stores)
+    need("if self.split_string is None:" in csrc and "rule = get_metamodel(current_obj)[obj_ref.match_rule_name]" in csrc
+         and "if hasattr(rule._tx_peg_rule, 'split'): split = rule._tx_peg_rule.split else: split = '.'" in csrc
+         and "else: split = self.split_string" in csrc, "delimiter deduction of the RREL provider changed")
+    need("return find(current_obj, obj_name, self.rrel_tree, obj_cls, split_string=split, use_proxy=self.use_proxy)" in csrc,
+         "the RREL provider no longer calls find(current_obj, obj_name, tree, cls, split_string=split, use_proxy=...)")
 
     text = "From TxV Require Import Core.Base.\n"
     text += ("Record rrel_facts := { key_has_first : bool; pick_first_named : bool; star_local_before_root : bool;\n"
